@@ -291,9 +291,69 @@ func genFree(t *rapid.T) Case {
 	return c
 }
 
+// genTwin builds histories in which the same lines are introduced independently
+// on two branches (a file added or a change cherry-picked on both sides) and
+// the branches are then merged into a commit whose file equals both parents':
+// the shape in which the order of the merge's parents, not the order in which
+// their chains are resolved, decides the attribution. All texts are unique, so
+// the case is in the determined tier.
+func genTwin(t *rapid.T) Case {
+	ctr := 0
+	fresh := func(n int) []string {
+		var out []string
+		for i := 0; i < n; i++ {
+			ctr++
+			out = append(out, fmt.Sprintf("line-%d", ctr))
+		}
+		return out
+	}
+	base := fresh(rapid.IntRange(0, 3).Draw(t, "nbase"))
+	added := fresh(rapid.IntRange(1, 4).Draw(t, "nadded"))
+	pos := rapid.IntRange(0, len(base)).Draw(t, "pos")
+	full := append(append(append([]string(nil), base[:pos]...), added...), base[pos:]...)
+	var c Case
+	c.Commits = append(c.Commits, Commit{Lines: base}) // 0: root
+	// each side reaches `full` in 1..3 commits, introducing the added lines one prefix at a time
+	side := func(name string) int {
+		tip := 0
+		steps := rapid.IntRange(1, 3).Draw(t, name+"steps")
+		for sidx := 1; sidx <= steps; sidx++ {
+			k := len(added) * sidx / steps
+			if sidx == steps {
+				k = len(added)
+			}
+			ls := append(append(append([]string(nil), base[:pos]...), added[:k]...), base[pos:]...)
+			c.Commits = append(c.Commits, Commit{Parents: []int{tip}, Lines: ls})
+			tip = len(c.Commits) - 1
+		}
+		return tip
+	}
+	var a, b int
+	if rapid.Bool().Draw(t, "bfirst") { // which side gets the older commits
+		b = side("b")
+		a = side("a")
+	} else {
+		a = side("a")
+		b = side("b")
+	}
+	parents := []int{a, b}
+	if rapid.Bool().Draw(t, "swap") {
+		parents = []int{b, a}
+	}
+	c.Commits = append(c.Commits, Commit{Parents: parents, Lines: full})
+	if rapid.Bool().Draw(t, "tail") { // an ordinary commit on top
+		tip := len(c.Commits) - 1
+		c.Commits = append(c.Commits, Commit{Parents: []int{tip}, Lines: append(append([]string(nil), full...), fresh(1)...)})
+	}
+	return c
+}
+
 func gen(t *rapid.T, _ *evid.Recorder) Case {
-	if rapid.Bool().Draw(t, "determined") {
+	switch rapid.IntRange(0, 4).Draw(t, "family") {
+	case 0, 1:
 		return genDetermined(t)
+	case 2:
+		return genTwin(t)
 	}
 	return genFree(t)
 }
